@@ -354,7 +354,7 @@ func (g *Gen) Next() Op {
 	}
 	for tries := 0; tries < 50; tries++ {
 		fam := families[g.r.Intn(len(families))]
-		op, ok := g.genFamily(fam)
+		op, ok := g.tryFamily(fam)
 		if ok {
 			op.Fam = fam
 			if g.c18 && (op.Mode == "unsafe" || op.Mode == "same-unsafe") {
@@ -370,6 +370,20 @@ func (g *Gen) Next() Op {
 		}
 	}
 	return g.opNew(g.pickDt(), g.pickShape(3))
+}
+
+// tryFamily: a family that finds no suitable operand (all live tensors too large, wrong rank ...)
+// simply does not produce an operation.
+func (g *Gen) tryFamily(fam string) (op Op, ok bool) {
+	nslots := len(g.w.slots)
+	defer func() {
+		if r := recover(); r != nil {
+			g.w.slots = g.w.slots[:nslots]
+			g.queue = nil
+			op, ok = Op{}, false
+		}
+	}()
+	return g.genFamily(fam)
 }
 
 func (g *Gen) genFamily(fam string) (Op, bool) {
